@@ -195,4 +195,19 @@ theorem slppReadL_noPanic {μ φ : Type} (C : CodecT μ φ) (T : TextOracle) (sk
     slppReadL C.toCodec T skip bs ≠ .panic s :=
   _root_.Peppi.slppReadL_noPanic C T skip bs s
 
+/- from `Peppi.Lemmas.Trunc` -/
+open Extracted in
+theorem local_parseStart (T : TextOracle) : Rd.Local (parseStart T) :=
+  _root_.Peppi.local_parseStart T
+
+/- from `Peppi.Lemmas.Trunc` -/
+open Extracted in
+theorem local_parseEvent (ps : ParseState) : Rd.Local (parseEvent ps) :=
+  _root_.Peppi.local_parseEvent ps
+
+/- from `Peppi.Lemmas.Trunc` -/
+open Extracted in
+theorem local_parseMetadata (utf8 st) : Rd.Local (parseMetadata utf8 st) :=
+  _root_.Peppi.local_parseMetadata utf8 st
+
 end Peppi.Props.C07
